@@ -710,7 +710,7 @@ func TestVerifC21Race(t *testing.T) {
 	r := verifkit.Start(t, "C21", "pcache_race")
 	defer r.Finish()
 	r.SetRule("one case = one round of 6 getter goroutines (GetValue/GetValueBytes on 150 strings, advancing clock) against one writer goroutine (AddValues / RemoveByTTL / SetSizeTTL / Save / Stats) on a cache near its size limit, built with -race; every value a getter sees is compared with the value of that string, accounting is recomputed after the round, the image saved during the round is reloaded; non-trivial = hits and misses both seen.")
-	rounds := r.N(60, 1500)
+	rounds := r.N(150, 1500)
 	for i := 0; i < rounds; i++ {
 		c21Concurrent(r, i, 6, 1500, 600)
 	}
